@@ -304,52 +304,64 @@ Fixpoint a_number (a : aset) (k : Z) (n : Z) : option Z :=
 Definition a_set (n : Z) (x : D) (a : aset) : aset :=
   if (0 <=? n) && (n <? zlen a) then setn a n (fst (getn (0, d0) a n), x) else a.
 
-(* abstract state: the elements and the capacity *)
-Definition astate := (aset * Z)%type.
-Definition ds_astate (s : ds) : astate := (ds_abs s, themax s).
-
 (* The abstract step.  The keys handed out by the implementation and the outcome of a removal by a key that is not
    in the set (exception or nothing, depending on how far the key array was ever used) are choices of the
-   implementation: the abstract step takes them from the output and the specification constrains them
-   (astep_ok below: new keys are fresh and distinct). *)
-Definition astep (a : astate) (o : op) (r : out) : astate :=
-  let '(l, cap) := a in
+   implementation: the abstract step takes them from the output; the refinement theorem shows that new keys are
+   fresh and distinct.  Capacity is not part of the abstract state: an operation whose precondition on the capacity
+   fails is reported as RSkip and changes nothing. *)
+Definition a_key_at (a : aset) (n : Z) : Z := fst (getn (-1, d0) a n).
+
+Definition astep (l : aset) (o : op) (r : out) : aset :=
   match o, r with
-  | _, RSkip => a
-  | OAdd x, RKey k => (l ++ [(k, x)], cap)
-  | OAddMany xs, RKeys ks => (l ++ combine ks xs, cap)
-  | ORemove n, _ => (a_remove n l, cap)
-  | ORemoveKey k, _ => match a_number l k 0 with Some n => (a_remove n l, cap) | None => a end
-  | ORemovePerm p, _ => (a_remove_perm (map (fun k => getn 0 p k) (zrange (zlen l))) l, cap)
-  | ORemoveNums ns, _ => (a_remove_perm (mark_perm (zrange (zlen l)) ns) l, cap)
+  | _, RSkip => l
+  | OAdd x, RKey k => l ++ [(k, x)]
+  | OAddMany xs, RKeys ks => l ++ combine ks xs
+  | ORemove n, _ => a_remove n l
+  | ORemoveKey k, _ => match a_number l k 0 with Some n => a_remove n l | None => l end
+  | ORemovePerm p, _ => a_remove_perm (map (fun k => getn 0 p k) (zrange (zlen l))) l
+  | ORemoveNums ns, _ => a_remove_perm (mark_perm (zrange (zlen l)) ns) l
   | ORemoveKeys ks, _ =>
-      (a_remove_perm (mark_perm (zrange (zlen l))
-                                (map (fun k => match a_number l k 0 with Some n => n | None => -1 end) ks)) l, cap)
-  | OClear, _ => ([], cap)
-  | OReMax m, _ => (l, cap)            (* capacity: see astep_cap *)
-  | OSet n x, _ => (a_set n x l, cap)
-  | OCopy, _ => a
-  | OAssign m, _ => a
-  | _, _ => a
+      a_remove_perm (mark_perm (zrange (zlen l))
+                               (map (fun k => match a_number l k 0 with Some n => n | None => -1 end) ks)) l
+  | OClear, _ => []
+  | OReMax m, _ => l
+  | OSet n x, _ => a_set n x l
+  | OCopy, _ => l
+  | OAssign m, _ => l
+  | _, _ => l
   end.
 
-(* keys removed from the set by an operation performed in state s *)
-Definition removed_keys (s : ds) (o : op) : list Z :=
+(* keys removed from the set by an operation *)
+Definition a_removed (l : aset) (o : op) : list Z :=
   match o with
-  | ORemove n => if ds_has_num s n then [ds_key s n] else []
+  | ORemove n => if (0 <=? n) && (n <? zlen l) then [a_key_at l n] else []
   | ORemoveKey k => [k]
-  | ORemovePerm p => map (ds_key s) (filter (fun n => getn 0 p n <? 0) (zrange (thenum s)))
-  | ORemoveNums ns => map (ds_key s) ns
+  | ORemovePerm p => map (a_key_at l) (filter (fun n => getn 0 p n <? 0) (zrange (zlen l)))
+  | ORemoveNums ns => map (a_key_at l) ns
   | ORemoveKeys ks => ks
-  | OClear => a_keys (ds_abs s)
+  | OClear => a_keys l
   | _ => []
   end.
 
 (* keys whose element an operation overwrites *)
-Definition written_keys (s : ds) (o : op) : list Z :=
+Definition a_written (l : aset) (o : op) : list Z :=
   match o with
-  | OSet n _ => if ds_has_num s n then [ds_key s n] else []
+  | OSet n _ => if (0 <=? n) && (n <? zlen l) then [a_key_at l n] else []
   | _ => []
   end.
 
 End DataSet.
+
+Arguments data {D}. Arguments info {D}. Arguments keys {D}. Arguments themax {D}. Arguments thesize {D}.
+Arguments thenum {D}. Arguments firstfree {D}. Arguments mkDS {D}.
+Arguments ds_init {D}. Arguments ds_has_num {D}. Arguments ds_number {D}. Arguments ds_has_key {D}. Arguments ds_key {D}.
+Arguments ds_elem_num {D}. Arguments ds_elem_key {D}. Arguments ds_create {D}. Arguments ds_add {D}.
+Arguments ds_add_many {D}. Arguments ds_remove_num {D}. Arguments ds_remove_key {D}. Arguments ds_remove_perm {D}.
+Arguments ds_remove_nums {D}. Arguments ds_remove_keys {D}. Arguments ds_clear {D}. Arguments ds_remax {D}.
+Arguments ds_copy {D}. Arguments ds_assign {D}. Arguments ds_set_num {D}. Arguments ds_step {D}. Arguments ds_run {D}.
+Arguments ds_free {D}. Arguments ds_abs {D}. Arguments pad_perm {D}. Arguments a_keys {D}. Arguments a_remove {D}.
+Arguments a_remove_perm {D}. Arguments a_number {D}. Arguments a_set {D}. Arguments astep {D}. Arguments a_key_at {D}.
+Arguments a_removed {D}. Arguments a_written {D}.
+Arguments OAdd {D}. Arguments OAddMany {D}. Arguments ORemove {D}. Arguments ORemoveKey {D}. Arguments ORemovePerm {D}.
+Arguments ORemoveNums {D}. Arguments ORemoveKeys {D}. Arguments OClear {D}. Arguments OReMax {D}. Arguments OSet {D}.
+Arguments OCopy {D}. Arguments OAssign {D}.
